@@ -1,5 +1,6 @@
 import Rtcm.Lemmas.ReaderEvents
 import Rtcm.Lemmas.Stream
+import Rtcm.Lemmas.SockLawful
 import Rtcm.Gen.Tables
 /-
   C04 — parsing is total: only the library's own errors, and it always terminates.
@@ -79,5 +80,12 @@ namespace Rtcm
 theorem C04_file_iteration_terminates (T : Tables) (o : Opts) (resume : Bool) (data : Bytes) (sched : List (Option Nat)) :
     ∀ ev ∈ run fileOps T o resume ⟨data, sched⟩, ev.isStuck = false ∧ ev.isForeign = false :=
   fun ev hev => ⟨run_not_stuck fileOps_lawful T o resume _ ev hev, (C04_reader fileOps T o resume _ ev hev).1⟩
+
+/-- the same over the socket wrapper, for every receive schedule (data in any segmentation,
+    timeouts, OS errors, close), every buffer size, chunked or not and for every per-chunk decoder:
+    the iteration finishes and nothing but library errors ever escapes -/
+theorem C04_socket_iteration_terminates (dec : Bytes → Bytes) (T : Tables) (o : Opts) (resume : Bool) (s : Sock) :
+    ∀ ev ∈ run (sockOps dec) T o resume s, ev.isStuck = false ∧ ev.isForeign = false :=
+  fun ev hev => ⟨run_not_stuck (sockOps_lawful dec) T o resume _ ev hev, (C04_reader (sockOps dec) T o resume _ ev hev).1⟩
 
 end Rtcm
